@@ -13,6 +13,7 @@ import (
 	"net/http"
 	"net/http/httptest"
 	"os"
+	"path"
 	"sort"
 	"strconv"
 	"strings"
@@ -516,6 +517,11 @@ func observe() (o observation, fails []core.Failure) {
 	o.idResp = map[string]response{}
 	var parts []string
 	for _, id := range ids {
+		if idCandidates(o.cfg, id) > 1 {
+			// which object /id/ reaches depends on Go's map iteration order
+			parts = append(parts, hexOf(id)+"=amb")
+			continue
+		}
 		r := get("/id/" + id)
 		o.idResp[id] = r
 		s, rec := showGet(r, &fails)
@@ -595,7 +601,9 @@ func runHist(line, field string) core.Outcome {
 			}
 			class := "rejected-request-visible-later"
 			for j := 0; j < rej; j++ {
-				if steps[j].m == "D" && strings.Trim(steps[j].path, "/") == "config" && status[j] == 200 {
+				// a DELETE that was answered 200 and left the whole configuration null removed the
+				// "config" key itself (DELETE /config/, /config/..., /id/<root id>/...)
+				if f := strings.Split(outs[j], "/"); steps[j].m == "D" && status[j] == 200 && len(f) > 1 && f[1] == "n" {
 					class = "rejected-request-recreates-deleted-config-key"
 				}
 			}
@@ -634,6 +642,20 @@ func playHist(steps []step, o *core.Outcome, tags map[string]bool) (outs []strin
 			r := get(refPath)
 			pre = &r
 		}
+		if strings.HasPrefix(st.path, "/id/") && routesToID(st.path) {
+			if p := strings.Split(st.path, "/"); len(p) >= 3 && p[2] != "" && idCandidates(prev.cfg, p[2]) > 1 {
+				// ambiguous id: the answer is not a function of the history; not executed
+				status = append(status, 0)
+				etags = append(etags, etagRec{})
+				tags["resp:amb"] = true
+				if st.m == "G" || st.m == "H" {
+					outs = append(outs, "amb")
+				} else {
+					outs = append(outs, "amb/"+prev.cfgEnc+"/"+prev.ids+"/"+strconv.Itoa(prev.loads)+"/"+prev.saw)
+				}
+				continue
+			}
+		}
 		r := do(methodName[st.m], st.path, st.bodyBytes(), st.headers(hdr))
 		status = append(status, r.status)
 		if r.hung {
@@ -663,6 +685,56 @@ func playHist(steps []step, o *core.Outcome, tags map[string]bool) (outs []strin
 		prev = cur
 	}
 	return outs, status
+}
+
+// indexKey is the key indexConfigObjects files an @id value under.
+func indexKey(v any) (string, bool) {
+	switch t := v.(type) {
+	case string:
+		return t, true
+	case json.Number:
+		f, err := strconv.ParseFloat(string(t), 64)
+		if err != nil {
+			return "", false
+		}
+		return strconv.FormatFloat(f, 'g', -1, 64), true // == fmt.Sprintf("%v", f)
+	}
+	return "", false
+}
+
+// idCandidates counts the objects of cfg whose @id is indexed under key.
+func idCandidates(cfg any, key string) int {
+	n := 0
+	var walk func(v any)
+	walk = func(v any) {
+		switch x := v.(type) {
+		case []any:
+			for _, e := range x {
+				walk(e)
+			}
+		case map[string]any:
+			for k, e := range x {
+				if k == "@id" {
+					if ik, ok := indexKey(e); ok && ik == key {
+						n++
+					}
+					continue
+				}
+				walk(e)
+			}
+		}
+	}
+	walk(cfg)
+	return n
+}
+
+// routesToID: the mux hands the path to handleConfigID (it is clean).
+func routesToID(p string) bool {
+	c := path.Clean(p)
+	if strings.HasSuffix(p, "/") && c != "/" {
+		c += "/"
+	}
+	return c == p
 }
 
 func classOf(s string) string {
